@@ -103,17 +103,25 @@ def replay_trace(events, root, res_labels, preexisting=()):
                     m.fds[fd] = ("file", m.vol[target])
                 else:
                     m.fds[fd] = ("dir", target)
-            elif name == "os.fsync":
+            elif name in ("os.fsync", "os.fsync.failed"):
                 fd = info["args"][0]
                 ent = m.fds.get(fd)
+                ino = None
                 if ent is None:
                     # fd from mkstemp: resolve by path
                     i = m.vol.get(target)
-                    if i is not None:
-                        m.inodes[i]["d"] = m.inodes[i]["v"]
+                    ino = m.inodes[i] if i is not None else None
                 elif ent[0] == "file":
-                    m.inodes[ent[1]]["d"] = m.inodes[ent[1]]["v"]
-                else:
+                    ino = m.inodes[ent[1]]
+                if name == "os.fsync.failed":
+                    # a failed fsync reports the write-back error ONCE and leaves the pages clean: this content version is lost for
+                    # good - a later fsync that succeeds (e.g. a retry) does not bring it back, only a rewrite does
+                    if ino is not None:
+                        ino["lost"] = ino["v"]
+                elif ino is not None:
+                    if ino.get("lost") != ino["v"]:
+                        ino["d"] = ino["v"]
+                elif ent is not None:
                     m.sync_dir(ent[1])
             elif name == "os.close":
                 m.fds.pop(info["args"][0], None)
@@ -297,6 +305,7 @@ def check_fsync_fault(case):
                 state["n"] += 1
                 if state["n"] == case["k"]:
                     state["fired"] = target
+                    full.append((n, "after", layer, "os.fsync.failed", target, info, state["op"]))
                     raise OSError(5, "injected: fsync failed")
             if phase == "after" and name == "os.replace" and target == HINT:
                 try:
